@@ -28,6 +28,6 @@ def families(tier):
 
 
 def run(prop, tier, replay):
-    return cc.run_check(prop, tier, replay, families(tier), cap_quick=110,
+    return cc.run_check(prop, tier, replay, families(tier), cap_quick=80,
                         expect_pcs=("o_ext", "o_headfinal", "o_headstaging", "f_copy", "f_flip", "f_del", "f_headfinal",
                                     "c_stage", "c_ext", "c_extget", "c_headfin", "c_delst", "v_ext", "crash"))
